@@ -234,14 +234,13 @@ func (e *Enc) autoInline(fn *ssa.Function, depth int) bool {
 
 // inline encodes the callee's body in the caller's context. st is updated in place.
 func (e *Enc) inline(parent *Frame, fn *ssa.Function, args []Val, bind []Val, guard T, st *State, depth int, path string) ([]Val, *State) {
-	for p := parent; p != nil; p = nil {
-		if p.fn == fn {
+	for _, f := range e.inlineStack {
+		if f == fn {
 			panic(unsupported("recursive inlining of " + fn.String()))
 		}
 	}
-	if strings.Count(path, ">"+fn.Name()) > 1 {
-		panic(unsupported("recursive inlining of " + fn.String()))
-	}
+	e.inlineStack = append(e.inlineStack, fn)
+	defer func() { e.inlineStack = e.inlineStack[:len(e.inlineStack)-1] }()
 	fr := e.newFrame(fn, depth, path)
 	fr.bind = bind
 	if parent != nil {
@@ -343,7 +342,12 @@ func (e *Enc) applyContract(fr *Frame, ct *FuncContract, fn *ssa.Function, sig *
 			e.havocLvalue(sc, m.E, st)
 		}
 	}
-	res := e.freshResults(sig, name)
+	var res []Val
+	if ct.Pure {
+		res = e.pureUF(who, args, sig)
+	} else {
+		res = e.freshResults(sig, name)
+	}
 	post := &Scope{st: st, old: pre, vars: map[string]Val{}, oldVars: oldVars, pkg: sc.pkg}
 	for k, v := range sc.vars {
 		post.vars[k] = v
